@@ -5,6 +5,7 @@ package main
 
 import (
 	"fmt"
+	"go/token"
 	"go/types"
 	"strings"
 
@@ -171,7 +172,11 @@ func (in *Interp) connWrite(fr *frame, dst Value, s Str) Value {
 	if raw.F["closed"] != nil {
 		return in.newError(CStr("write: use of closed network connection"), nil)
 	}
-	if wb, _ := raw.F["writeBlock"].(bool); wb {
+	wb, _ := raw.F["writeBlock"].(bool)
+	if wa, _ := raw.F["writeBlockAfter1"].(bool); wa && len(raw.items2) >= 1 {
+		wb = true // the client's receive window took one frame and is full now
+	}
+	if wb {
 		// the client does not read: the write blocks until a write deadline or a close
 		in.emit("write.begin", in.connName(dst))
 		in.block("write "+in.connName(dst), func() bool { return raw.F["closed"] != nil || raw.F["wdeadline"] != nil })
@@ -376,6 +381,54 @@ func registerEnvIntrinsics() {
 		return nil, true
 	}
 
+	// ---- sync/atomic (sequentially consistent in the cooperative scheduler; atomic
+	// accesses are synchronisation, not race subjects: no rd/wr events) ----
+	for _, at := range []struct {
+		n string
+		t types.Type
+	}{{"Int32", types.Typ[types.Int32]}, {"Int64", types.Typ[types.Int64]}, {"Uint32", types.Typ[types.Uint32]}, {"Uint64", types.Typ[types.Uint64]}, {"Uintptr", types.Typ[types.Uintptr]}} {
+		at := at
+		ptr := func(fr *frame, in *Interp, v Value) *Value {
+			p, _ := v.(*Value)
+			if p == nil {
+				fr.tpanic("nil-deref", in.runtimeError("invalid memory address or nil pointer dereference"))
+			}
+			return p
+		}
+		I["sync/atomic.Load"+at.n] = func(in *Interp, fr *frame, args []Value) (Value, bool) {
+			in.maybePreempt("atomic")
+			return copyVal(*ptr(fr, in, args[0])), true
+		}
+		I["sync/atomic.Store"+at.n] = func(in *Interp, fr *frame, args []Value) (Value, bool) {
+			in.maybePreempt("atomic")
+			*ptr(fr, in, args[0]) = copyVal(args[1])
+			return nil, true
+		}
+		I["sync/atomic.Add"+at.n] = func(in *Interp, fr *frame, args []Value) (Value, bool) {
+			in.maybePreempt("atomic")
+			p := ptr(fr, in, args[0])
+			*p = in.binopT(fr, token.ADD, at.t, at.t, *p, args[1])
+			return copyVal(*p), true
+		}
+		I["sync/atomic.Swap"+at.n] = func(in *Interp, fr *frame, args []Value) (Value, bool) {
+			in.maybePreempt("atomic")
+			p := ptr(fr, in, args[0])
+			old := *p
+			*p = copyVal(args[1])
+			return old, true
+		}
+		I["sync/atomic.CompareAndSwap"+at.n] = func(in *Interp, fr *frame, args []Value) (Value, bool) {
+			in.maybePreempt("atomic")
+			p := ptr(fr, in, args[0])
+			eq := in.binopT(fr, token.EQL, at.t, at.t, *p, args[1])
+			if in.branch(eq, "atomic.CompareAndSwap") {
+				*p = copyVal(args[2])
+				return true, true
+			}
+			return false, true
+		}
+	}
+
 	// ---- context ----
 	newCtx := func(in *Interp, parent Value) *Obj {
 		o := in.newObj("ctx")
@@ -504,6 +557,34 @@ func registerEnvIntrinsics() {
 		}
 		o.str = concatStr(o.str, s)
 		return Tuple{s.LenValue(in.tt), Iface{}}, true
+	}
+	// Reset discards buffered data and errors and retargets the object: a write to
+	// the bufio object's state like every other method call (not thread-safe)
+	I["(*bufio.Writer).Reset"] = func(in *Interp, fr *frame, args []Value) (Value, bool) {
+		o := in.sideObj(args[0], "bufwriter")
+		if o == nil {
+			fr.tpanic("nil-deref", in.runtimeError("invalid memory address or nil pointer dereference"))
+		}
+		in.bufioTouch(fr, o, "Reset")
+		o.str = Str{}
+		delete(o.F, "err")
+		o.F["dst"] = args[1]
+		return nil, true
+	}
+	I["(*bufio.Reader).Reset"] = func(in *Interp, fr *frame, args []Value) (Value, bool) {
+		o := in.sideObj(args[0], "bufreader")
+		if o == nil {
+			fr.tpanic("nil-deref", in.runtimeError("invalid memory address or nil pointer dereference"))
+		}
+		// read-ahead bytes (frames the client pipelined in the same segment) are dropped
+		if raw, _ := in.rawConn(o.F["src"]); raw != nil {
+			if p := raw.F["pipelined"]; p != nil && in.branch(p, "client pipelines plaintext") {
+				in.unsupported("bufio.Reader.Reset with read-ahead data")
+			}
+		}
+		delete(o.F, "err")
+		o.F["src"] = args[1]
+		return nil, true
 	}
 	I["(*bufio.Writer).Size"] = func(in *Interp, fr *frame, args []Value) (Value, bool) {
 		return Int(4096), true
@@ -896,7 +977,12 @@ func (in *Interp) objMethod(fr *frame, o *Obj, name string, args []Value) Value 
 		}
 	case "logger":
 		switch name {
-		case "IsDebug", "IsTrace", "IsInfo", "IsWarn", "IsError":
+		case "IsDebug", "IsInfo", "IsWarn", "IsError":
+			if d := o.F["debug"]; d != nil {
+				return in.branch(d, "logger at debug level")
+			}
+			return false
+		case "IsTrace":
 			return false
 		case "Named", "With", "ResetNamed":
 			return in.ifaceOf(o)
@@ -955,6 +1041,14 @@ func (in *Interp) objMethod(fr *frame, o *Obj, name string, args []Value) Value 
 			if de := o.F["deadlineErr"]; de != nil && in.branch(de, "deadline error") {
 				return in.newError(CStr("set deadline: error"), nil)
 			}
+			if timeIsZero(args[0]) {
+				// the zero Time clears the deadline
+				delete(o.F, "deadline")
+				if name == "SetDeadline" {
+					delete(o.F, "wdeadline")
+				}
+				return Iface{}
+			}
 			o.F["deadline"] = true
 			if name == "SetDeadline" {
 				o.F["wdeadline"] = true
@@ -964,6 +1058,10 @@ func (in *Interp) objMethod(fr *frame, o *Obj, name string, args []Value) Value 
 			in.emit("setWriteDeadline", nm)
 			if de := o.F["deadlineErr"]; de != nil && in.branch(de, "deadline error") {
 				return in.newError(CStr("set deadline: error"), nil)
+			}
+			if timeIsZero(args[0]) {
+				delete(o.F, "wdeadline")
+				return Iface{}
 			}
 			o.F["wdeadline"] = true
 			return Iface{}
@@ -1042,4 +1140,15 @@ func (in *Interp) objMethod(fr *frame, o *Obj, name string, args []Value) Value 
 	}
 	in.unsupported("method %s on %s stub", name, o.Kind)
 	return nil
+}
+
+// timeIsZero: the argument is the zero time.Time (wall = 0, ext = 0).
+func timeIsZero(v Value) bool {
+	st, ok := v.(Struct)
+	if !ok || len(st) < 2 {
+		return false
+	}
+	a, ok1 := st[0].(Int)
+	b, ok2 := st[1].(Int)
+	return ok1 && ok2 && a == 0 && b == 0
 }
